@@ -80,6 +80,7 @@ def operations():
         "child_insert_index(existing child)": lambda t: [_quiet(lambda n=n, c=c: rule_mod.get_rule(n.name).child_insert_index(n, c))
                                                 for n in all_nodes(t) if n.name in rule_mod.node_mappings for c in list(n.children)],
         "is_allowed_child": lambda t: [_quiet(lambda n=n: rule_mod.get_rule(n.name).is_allowed_child("title")) for n in all_nodes(t) if n.name in rule_mod.node_mappings],
+        "accessors and printable forms": lambda t: [(n.attribute_value("id"), n.list_attributes(), str(n), repr(n)) for n in all_nodes(t)],
         "is_equal": lambda t: [Node.is_equal(n, m) for n in all_nodes(t)[:6] for m in all_nodes(t)[:6]],
     }
     return ops
